@@ -122,6 +122,7 @@ def scenarios():
     S['shared_new_dir'] = dict(threads=[bf('a/x', w('1')), bf('a/y', w('2'))])
     S['shared_new_dir_deep'] = dict(threads=[bf('a/b/x', w('1')), bf('a/b/y', w('2'))])
     S['sibling_dirs'] = dict(threads=[bf('a/b/x', w('1')), bf('a/c/y', w('2'))])
+    S['mixed_depth'] = dict(threads=[bf('a/b/x', w('1')), bf('a/y', w('2'))])
     S['one_fails'] = dict(threads=[catching(bf('a/x', w_then_raise('1'))), bf('a/y', w('2'))])
     S['both_fail'] = dict(threads=[catching(bf('a/b/x', w_then_raise('1'))), catching(bf('a/b/y', w_then_raise('2')))])
     S['fail_alone_in_dir'] = dict(threads=[catching(bf('a/x', w_then_raise('1'))), bf('c/y', w('2'))])
